@@ -17,8 +17,8 @@ Lemma F3_refuted :
   exists env env' p,
     Permutation env env' /\
     guard_F3 (norm_env "P_" env) = true /\ guard_F4 (norm_env "P_" env) = false /\
-    top_view p (load tr_id false false false "P_" [] None env) <>
-    top_view p (load tr_id false false false "P_" [] None env').
+    top_view p (load (sh_bits []) tr_id false false "P_" [] None env) <>
+    top_view p (load (sh_bits []) tr_id false false "P_" [] None env').
 Proof.
   exists [("P_M_L_0", "x"); ("P_M_L_1", "y")], [("P_M_L_1", "y"); ("P_M_L_0", "x")],
          [SK "m"; SK "l"; SI 0].
@@ -28,7 +28,7 @@ Qed.
 (** ... and with the candidate repair both variables arrive, in either order *)
 Lemma F3_repaired_on_witness :
   forall env, Permutation [("P_M_L_0", "x"); ("P_M_L_1", "y")] env ->
-    load tr_id true false false "P_" [] None env
+    load (sh_bits []) tr_id true false "P_" [] None env
     = Ok [(K "m", Map [(K "l", Lst [Leaf "x"; Leaf "y"])])].
 Proof.
   intros env H.
@@ -43,7 +43,7 @@ Lemma F4_refuted :
   exists env nk v r,
     norm_env "P_" env = [(nk, v)] /\
     guard_F4 (norm_env "P_" env) = true /\ guard_F3 (norm_env "P_" env) = false /\
-    load tr_id false false false "P_" [] None env = Ok r /\
+    load (sh_bits []) tr_id false false "P_" [] None env = Ok r /\
     view (parse_path nk) (Map r) <> NLeaf v.
 Proof.
   exists [("P_L_0_R_S", "deep")], "l.0.r.s", "deep".
@@ -51,6 +51,6 @@ Proof.
 Qed.
 
 Lemma F4_repaired_on_witness :
-  exists r, load tr_id false true false "P_" [] None [("P_L_0_R_S", "deep")] = Ok r /\
+  exists r, load (sh_bits []) tr_id false true "P_" [] None [("P_L_0_R_S", "deep")] = Ok r /\
             view (parse_path "l.0.r.s") (Map r) = NLeaf "deep".
 Proof. eexists. vm_compute. split; reflexivity. Qed.
